@@ -53,8 +53,20 @@ ManyRS(kf, kg) == LET full == MkRS(kf, kg) IN
 \* Shape = "plain": no user functions at all; rules r4 (reaches an unregistered function when a < 2), r5, r6
 PlainRS(kf, kg) == LET full == MkRS(kf, kg) IN [full EXCEPT !.rules = SubSeq(full.rules, 4, 6), !.funcs = <<>>]
 SingleRS(kf, kg) == LET full == MkRS(kf, kg) IN [full EXCEPT !.rules = <<full.rules[2]>>]
+\* Shape = "refine" (MC_Refine): a cacheable function c whose FIRST invocation fails (a failed call is not remembered,
+\* the next call invokes it again and that result is), next to the cacheable f and the non-cacheable g
+RefineRS(kf, kg) ==
+  [rules |-> SubSeq(<< [name |-> S("r1"), expr |-> Call(S("c"), A)],
+                       [name |-> S("r2"), expr |-> VecE(<<Call(S("c"), A), Call(S("f"), A)>>)],
+                       [name |-> S("r3"), expr |-> VecE(<<Call(S("c"), A), Call(S("f"), A), Call(S("g"), A), Call(S("g"), A)>>)],
+                       [name |-> S("r4"), expr |-> Call(S("f"), Call(S("g"), Val(I(5))))] >>, 1, IF NRules < 4 THEN NRules ELSE 4),
+   funcs |-> << [name |-> S("f"), cacheable |-> TRUE, suspend |-> kf, script |-> Echo],
+                [name |-> S("g"), cacheable |-> FALSE, suspend |-> kg, script |-> <<[r |-> "double"]>>],
+                [name |-> S("c"), cacheable |-> TRUE, suspend |-> kf, script |-> <<[r |-> "fail", msg |-> S("c1")], [r |-> "tagged"]>>] >>,
+   syms |-> <<>>]
 TheRS == IF Shape = "single" THEN SingleRS(cfg.kf, cfg.kg) ELSE IF Shape = "many" THEN ManyRS(cfg.kf, cfg.kg)
-         ELSE IF Shape = "plain" THEN PlainRS(cfg.kf, cfg.kg) ELSE MkRS(cfg.kf, cfg.kg)
+         ELSE IF Shape = "plain" THEN PlainRS(cfg.kf, cfg.kg) ELSE IF Shape = "refine" THEN RefineRS(cfg.kf, cfg.kg)
+         ELSE MkRS(cfg.kf, cfg.kg)
 \* K > 5 is the scale configuration: a user function that suspends K times (an evaluation polled hundreds of times)
 Ks == IF K <= 5 THEN 0..K ELSE {0, K}
 Init == /\ cfg \in [kf : Ks, kg : Ks, same : BOOLEAN]
